@@ -294,6 +294,31 @@ impl Case for WCase {
                         }
                     }
                 }
+                // long texts: every alphabet size up to the full 256 byte values, several orders, with repeats
+                let mut texts: Vec<Vec<u8>> = Vec::new();
+                for missing in [None, Some(0u8), Some(255), Some(7), Some(128)] {
+                    let all: Vec<u8> = (0..=255u8).filter(|b| Some(*b) != missing).collect();
+                    texts.push(all.clone());
+                    texts.push(all.iter().rev().copied().collect());
+                    texts.push(all.iter().map(|&b| b.wrapping_mul(37).wrapping_add(11)).filter(|b| Some(*b) != missing).collect());
+                    let mut twice = all.clone();
+                    twice.extend(all.iter().rev());
+                    texts.push(twice);
+                }
+                for k in [1usize, 2, 100, 200, 254, 255] {
+                    texts.push((0..k as u32 * 3).map(|i| ((i * 7) % k as u32) as u8 ^ 0x80).collect());
+                }
+                for (j, s) in texts.iter().enumerate() {
+                    let mut distinct: Vec<u8> = s.clone();
+                    distinct.sort_unstable();
+                    distinct.dedup();
+                    let want: Vec<u8> = s.iter().map(|c| distinct.binary_search(c).unwrap() as u8).collect();
+                    let mut got = s.clone();
+                    let d = ctx.obs("text_remap", "long-text", s.len() as u128, j as u64, 0, Exp::Is(distinct.len()), || text_remap(&mut got));
+                    if d.is_some() && got != want {
+                        ctx.violation("text_remap", "long-text", format!("text_remap(text #{j} of {} bytes, {} distinct)", s.len(), distinct.len()), "order-preserving ranks".into(), "a different mapping".into());
+                    }
+                }
             }
         }
     }
